@@ -801,6 +801,233 @@ func (e *env) runRouter(ws []string) string {
 	return "reg=" + showList(ro) + " serve=" + showList(so)
 }
 
+// ---------------------------------------------------------------- nested routers behind a scribbling handler
+
+// relRouteFunc is relFunc plus the RelRoute() the handler sees.
+func relRouteFunc(role string, tag int) aries.Func {
+	return func(c *aries.C) error {
+		total := len(splitSegs(c.Path))
+		rr := c.RelRoute()
+		fmt.Fprintf(c.Resp, "%s%d@%s@%d@%s", role, tag, hexs(c.Rel()), total-len(rr), showRoute(rr))
+		return nil
+	}
+}
+
+func buildRouterImpl(idx, def int, regs []rReg, mk func(string, int) aries.Func) *aries.Router {
+	r := aries.NewRouter()
+	if idx >= 0 {
+		r.Index(mk("i", idx))
+	}
+	if def >= 0 {
+		r.Default(mk("d", def))
+	}
+	for _, g := range regs {
+		func() {
+			defer func() { recover() }()
+			switch g.kind {
+			case "F":
+				r.File(g.path, mk("n", g.tag))
+			case "D":
+				r.Dir(g.path, mk("n", g.tag))
+			default:
+				r.MethodFile(g.method, g.path, mk("n", g.tag))
+			}
+		}()
+	}
+	return r
+}
+
+// scribble does what a careless handler may do with the values the context
+// accessors hand out: it overwrites and appends to the slice RelRoute()
+// returned (strings returned by Rel/Current/Path are immutable in Go; they are
+// read and re-sliced only).
+func scribble(c *aries.C, kind string) {
+	if kind == "none" {
+		return
+	}
+	parts := c.RelRoute()
+	_ = c.Rel() + c.Current() + c.Path
+	switch kind {
+	case "a": // build a key: first segment + a fixed name (append may write into spare capacity)
+		if len(parts) > 0 {
+			key := append(parts[:1], "b")
+			_ = strings.Join(key, "/")
+		}
+	case "u": // overwrite every element
+		for i := range parts {
+			parts[i] = "b"
+		}
+	case "l": // normalise in place
+		for i := range parts {
+			parts[i] = strings.ToLower(strings.ToUpper(parts[i]) + "")
+			if parts[i] == "a" {
+				parts[i] = "ab"
+			}
+		}
+	case "t": // reuse the backing array as a scratch buffer
+		buf := parts[:0]
+		for i := 0; i < cap(parts); i++ {
+			buf = append(buf, "a")
+		}
+	}
+	// a second look must not see the scribbles either
+	again := c.RelRoute()
+	for i := range again {
+		again[i] = "a"
+	}
+}
+
+func nestImpl(mode, outer, scr string, idx, def int, regs []rReg, reqs []rReq) []string {
+	inner := buildRouterImpl(idx, def, regs, relRouteFunc)
+	reached := false
+	var top aries.Service
+	if mode == "tier" {
+		run := new(ssRun)
+		top = &aries.ServiceSet{
+			Auth: &authImpl{r: run, serve: tierSpec{kind: "miss"}, setup: "keep"},
+			Guest: aries.Func(func(c *aries.C) error {
+				scribble(c, scr)
+				return aries.Miss
+			}),
+			User: inner,
+		}
+	} else {
+		o := aries.NewRouter()
+		func() {
+			defer func() { recover() }()
+			o.Dir(outer, func(c *aries.C) error {
+				reached = true
+				scribble(c, scr)
+				return inner.Serve(c)
+			})
+		}()
+		top = o
+	}
+	var out []string
+	for _, q := range reqs {
+		res := func() (s string) {
+			defer func() {
+				if recover() != nil {
+					s = "panic"
+				}
+			}()
+			reached = false
+			w := httptest.NewRecorder()
+			c := aries.NewContext(w, newReq(q.method, q.path, "h"))
+			c.User = "u"
+			if q.pos > 0 {
+				c.ShiftRoute(q.pos)
+			}
+			err := top.Serve(c)
+			switch {
+			case err == aries.Miss && mode != "tier" && !reached:
+				return "outer-miss" // the outer router never ran the directory handler
+			case err == aries.Miss:
+				return "miss"
+			case err == nil:
+				return w.Body.String()
+			default:
+				return "badmethod"
+			}
+		}()
+		out = append(out, res)
+	}
+	return out
+}
+
+// nestSpec: the scribbling is irrelevant; the inner router decides on the
+// segments of the original path after the outer directory consumed its own.
+func nestSpec(mode, outer string, idx, def int, regs []rReg, reqs []rReq) []string {
+	osegs := splitSegs(outer)
+	var out []string
+	for _, q := range reqs {
+		all := splitSegs(q.path)
+		pos := q.pos
+		if pos > len(all) {
+			pos = len(all)
+		}
+		if mode != "tier" {
+			rest := all[pos:]
+			ok := len(osegs) > 0 && len(osegs) <= len(rest)
+			for i := range osegs {
+				if ok && rest[i] != osegs[i] {
+					ok = false
+				}
+			}
+			if !ok {
+				out = append(out, "outer-miss")
+				continue
+			}
+			pos += len(osegs)
+		}
+		_, b := routerSpec(idx, def, regs, []rReq{{q.method, q.path, pos}})
+		r := b[0]
+		if p := strings.Split(r, "@"); len(p) == 3 {
+			np, _ := strconv.Atoi(p[2])
+			r += "@" + showRoute(all[np:])
+		}
+		out = append(out, r)
+	}
+	return out
+}
+
+func (e *env) runNest(ws []string) string {
+	get := func(k string) string { v, _ := kv(ws, k); return v }
+	mode, outer, scr := get("mode"), unhex(get("outer")), get("scr")
+	idx, def := optTag(get("idx")), optTag(get("def"))
+	regs, ok := parseRouterRegs(get("regs"))
+	if !ok {
+		return "bad-op"
+	}
+	var reqs []rReq
+	for _, q := range listOf(get("reqs")) {
+		p := strings.Split(q, ":")
+		if len(p) != 3 {
+			return "bad-op"
+		}
+		pos, _ := strconv.Atoi(p[2])
+		reqs = append(reqs, rReq{unhex(p[0]), unhex(p[1]), pos})
+	}
+	got := nestImpl(mode, outer, scr, idx, def, regs, reqs)
+	want := nestSpec(mode, outer, idx, def, regs, reqs)
+	mk := func(regs []rReg, reqs []rReq) string {
+		return fmt.Sprintf("nest mode=%s outer=%s scr=%s idx=%s def=%s regs=%s reqs=%s", mode, hexs(outer), scr,
+			showOptTag(idx), showOptTag(def), showRouterRegs(regs), showReqs(reqs))
+	}
+	for i := range got {
+		if got[i] != want[i] {
+			q := []rReq{reqs[i]}
+			cur := append([]rReg{}, regs...)
+			bad := func(r []rReg) bool {
+				return safeBad(func() bool {
+					return nestImpl(mode, outer, scr, idx, def, r, q)[0] != nestSpec(mode, outer, idx, def, r, q)[0]
+				})
+			}
+			for changed := true; changed; {
+				changed = false
+				for k := 0; k < len(cur); k++ {
+					cand := append(append([]rReg{}, cur[:k]...), cur[k+1:]...)
+					if bad(cand) {
+						cur, changed = cand, true
+						break
+					}
+				}
+			}
+			a := nestImpl(mode, outer, scr, idx, def, cur, q)[0]
+			b := nestSpec(mode, outer, idx, def, cur, q)[0]
+			// does the same request, without the scribbling handler, behave?
+			key := "nested-router-wrong-decision"
+			if nestImpl(mode, outer, "none", idx, def, cur, q)[0] == b {
+				key = "route-slice-aliased"
+			}
+			e.fail(key, fmt.Sprintf("%s %q: a handler wrote to the slice RelRoute() returned (kind %s) and delegated to a nested router, which then did %s; on the segments of the request path the decision is %s (inner routes: %s)",
+				q[0].method, q[0].path, scr, a, b, showRouterRegs(cur)), []string{mk(cur, q)})
+			break
+		}
+	}
+	return "serve=" + showList(got)
+}
+
 // ---------------------------------------------------------------- service set
 
 type tierSpec struct {
@@ -1052,6 +1279,8 @@ func (e *env) runOp(line string) (out string) {
 		return e.runRoute(ws[1:])
 	case "router":
 		return e.runRouter(ws[1:])
+	case "nest":
+		return e.runNest(ws[1:])
 	case "svc":
 		return e.runSvc(ws[1:])
 	case "host":
@@ -1661,6 +1890,63 @@ func genSvc(s *sink, r *hx.Rand, thorough bool) {
 	s.flush()
 }
 
+// genNest: directory handlers (and a guest tier) that scribble over what
+// RelRoute() returned before a nested router looks at the rest of the path.
+func genNest(s *sink, r *hx.Rand, thorough bool) {
+	s.stream = "nested-scribble"
+	outers := []string{"a", "b", "a/b"}
+	scrs := []string{"a", "u", "l", "t"}
+	pool := []string{"a", "b", "ab", "a/b", "b/a", "b/b", "a/a"}
+	kinds := []rReg{{kind: "F"}, {kind: "D"}}
+	n := 4
+	if thorough {
+		n = 5
+		kinds = append(kinds, rReg{kind: "M", method: "GET"})
+	}
+	var paths []string
+	for _, p := range strs(1, n) {
+		if len(splitSegs(p)) >= 1 {
+			paths = append(paths, p)
+		}
+	}
+	paths = append(paths, "/a/b/a/b", "/a/a/b/", "b/a/b/b", "/a/b/b/a/", "a//b//a", "/b/b/a/a")
+	reqs := showReqs(routerReqs(paths, []string{"GET"}))
+	cnt := 0
+	for k := 1; k <= 2; k++ {
+		tuples(len(pool)*len(kinds), k, func(ix []int) {
+			if s.stop {
+				return
+			}
+			var regs []rReg
+			for t, i := range ix {
+				g := kinds[i%len(kinds)]
+				g.path, g.tag = pool[i/len(kinds)], t+1
+				regs = append(regs, g)
+			}
+			rs := showRouterRegs(regs)
+			for _, scr := range scrs {
+				def := "-"
+				if cnt%3 == 0 {
+					def = "91"
+				}
+				cnt++
+				outer := outers[cnt%len(outers)]
+				if thorough {
+					for _, o := range outers {
+						s.add(fmt.Sprintf("nest mode=dir outer=%s scr=%s idx=- def=%s regs=%s reqs=%s", hexs(o), scr, def, rs, reqs))
+					}
+				} else {
+					s.add(fmt.Sprintf("nest mode=dir outer=%s scr=%s idx=- def=%s regs=%s reqs=%s", hexs(outer), scr, def, rs, reqs))
+				}
+				if k == 1 || thorough || cnt%4 == 0 {
+					s.add(fmt.Sprintf("nest mode=tier outer=- scr=%s idx=90 def=%s regs=%s reqs=%s", scr, def, rs, reqs))
+				}
+			}
+		})
+	}
+	s.flush()
+}
+
 func genHost(s *sink) {
 	s.stream = "hostmux-exhaustive"
 	hosts := []string{"a.com", "A.com", "b.com", "a.com:80", "", "a.com."}
@@ -1722,11 +2008,13 @@ func main() {
 	genSvc(s, r, false)
 	genMux(s, r, false)
 	genRouter(s, r, false)
+	genNest(s, r, false)
 	if th {
 		genRoute(s, true)
 		genSeg(s, r, true)
 		genSvc(s, r, true)
 		genRouter(s, r, true)
+		genNest(s, r, true)
 		genMux(s, r, true)
 	}
 	rep.Exhaustive = !s.stop
